@@ -27,7 +27,7 @@ Proof. intro H. unfold hier_add_child. now apply ksorted_mset. Qed.
 Lemma ksorted_del_child p c h : ksorted h -> ksorted (hier_del_child p c h).
 Proof. intro H. unfold hier_del_child. destruct (find p h); [now apply ksorted_mset|exact H]. Qed.
 
-Lemma sorted_init : sorted_topo init_topo.
+Lemma sorted_init g : sorted_topo (init_topo g).
 Proof.
   repeat split; cbn; try constructor; try constructor. intros k' [].
 Qed.
@@ -55,7 +55,7 @@ Qed.
 Lemma sorted_fold rs : forall s, sorted_topo s -> sorted_topo (fold_left step rs s).
 Proof. induction rs as [|r rs IH]; intros s H; cbn [fold_left]; auto. apply IH, sorted_step, H. Qed.
 
-Lemma sorted_run rs : sorted_topo (run rs).
+Lemma sorted_run g rs : sorted_topo (run g rs).
 Proof. apply sorted_fold, sorted_init. Qed.
 
 (* ------------------------------------------------------------------ clause by clause *)
